@@ -11,5 +11,9 @@ mkdir -p "$A"
 rsync -a --delete --exclude .cache --exclude .git --exclude replays /verif/ "$A/verif/"
 find "$A/verif/harness" -name Cargo.toml -o -name config.toml | xargs sed -i "s|/repo/|$R/|g; s|/verif/.cache/target|$A/verif/.cache/target|g"
 grep -rl '"/repo' "$A/verif/checks" "$A/verif/translators" 2>/dev/null | xargs -r sed -i "s|\"/repo|\"$R|g"
+# seed the private cargo target with the already-built third-party dependencies (saves minutes)
+if [ ! -d "$A/verif/.cache/target" ] && [ -d /verif/.cache/target ]; then
+  mkdir -p "$A/verif/.cache"; cp -a /verif/.cache/target "$A/verif/.cache/target" 2>/dev/null || true
+fi
 cd "$A/verif"
 VERIF_REPO=$R ./check "$P" --tier "$T"
